@@ -7,7 +7,7 @@ HOOK_COMMITS = ["1784542", "85e93e9", "d564f5c"]
 
 DIFF = "differential monitor against an independent executable model"
 CHECKS = {
- "C01": ("crash/UB oracle under hostile input: in-process panic capture + worker-process boundary (abort, signal, stall) + macroblock-loop progress hook; overflow-checked, release and ASan builds (thorough: + Miri, valgrind memcheck, libFuzzer)",
+ "C01": ("crash/UB oracle under hostile input: in-process panic capture + worker-process boundary (abort, signal, stall) + macroblock-loop progress hook; overflow-checked, release and ASan builds (thorough: + Miri, valgrind memcheck, libFuzzer on raw bytes and on the hostile generator's decision tape)",
          "Held-on-observed: every decode call of every generated hostile history returned Ok/Err without panic, abort, sanitizer report or a non-consuming loop iteration. Reach comes from structure-aware hostile generation (mutated valid pictures, semantic extremes, random bytes) over all four option combinations and multi-call histories; it is sampling, not proof.", "3 C01"),
  "C02": (DIFF + " (spec-derived encoder + f64 reconstruction) on generated valid intra pictures; overflow-checked and release builds (thorough: + coverage-guided libFuzzer campaign on the case generator's decision tape)",
          "Held-on-observed: every generated valid intra picture decoded to exactly the model's planes (one-off differences only inside the stated rounding-boundary window). Tables are typed in from the standard and cross-checked codeword by codeword against the real tree walker.", "3 C02"),
